@@ -11,6 +11,7 @@ mod s_eval;
 mod rng;
 mod s_c06;
 mod s_c08;
+mod s_c09;
 mod s_smoke;
 mod wire;
 
@@ -60,6 +61,7 @@ fn main() {
     match stream {
         "C06" => s_c06::run(&mut em, thorough, seed),
         "C08" => s_c08::run(&mut em, thorough, seed),
+        "C09" => s_c09::run(&mut em, thorough, seed),
         "smoke" => s_smoke::run(&mut em),
         "evalmix" => s_eval::run_profile(
             &mut em,
